@@ -127,7 +127,11 @@ def run(pid, tier):
     mc_runs("CoPool", insts, tier, cov)
     scs = stage(pid, tier, v, cov, wd, bindir)
     if pid == "C12":
-        # EventLoops::stop while submitter threads are still submitting
+        # EventLoops::stop while submitter threads are still submitting: the cross-thread life cycle
+        # (LoopStop.tla; every named deviation must be refuted, the loops must leave under fairness)
+        mc_runs("LoopStop", [("MC_LoopStop.cfg", None), ("MC_LoopStop_live.cfg", None)] +
+                [("MC_LoopStop_%s.cfg" % d, "any") for d in ("announce_in_thread", "unguarded_submit", "queue_before_inflight")],
+                tier, cov)
         import e2e
         scs = scs + e2e.run_e2e("C12", tier, v, cov, wd, bindir)[:1]
     cov["samples"] = [scs[0], scs[-1]]
